@@ -522,6 +522,41 @@ theorem C11_chunking_reactive (cap0 cap0' : Option Nat) (pool pool' : Nat → Op
     obs (iterateT cap0 pool sz pre initLogs rs) = obs (iterateT cap0' pool' sz' pre' initLogs rs) := by
   rw [C11_iterate_reactive, C11_iterate_reactive]
 
+/-! ### `next_with_token` -/
+
+theorem nwtScan_logs (ls : List Log) (xs : List Item) : nwtScan (logItems ls ++ xs) = nwtScan xs := by
+  induction ls with
+  | nil => simp [logItems]
+  | cons l r ih => simp only [logItems, List.map_cons, List.cons_append, nwtScan] at ih ⊢; exact ih
+
+/-- the end-of-stream test asks "was a data batch read", not "is it non-empty" -/
+theorem nwt_end_test (rows : Nat) : Gen.C11.nwtEndOfStream true rows = false ∧ Gen.C11.nwtEndOfStream false rows = true := by
+  exact ⟨rfl, rfl⟩
+
+/-- **`next_with_token` on a per-batch response** (worker without a cap): a step that emits batch `b` — with ANY number of
+rows, zero included — is returned as `(b, token for the next position)`; emit+finish as `(b, no token)` -/
+theorem C11_nwt_one_step (sz : Item → Nat) (told pos : Nat) (s : Step) (r : List Step) (b : Batch) :
+    (s.act = .emit b → nwtRead (turn none sz told pos (s :: r)) = some (b, some (pos + 1))) ∧
+    (s.act = .emitFinish b → nwtRead (turn none sz told pos (s :: r)) = some (b, none)) := by
+  constructor
+  · intro h
+    simp only [nwtRead, turn, processStep, h, Gen.C11.mintWhen, Gen.C11.shouldContinue, Option.isSome_none, Bool.false_and,
+      Bool.not_false, if_true]
+    rw [List.append_assoc, List.append_assoc, nwtScan_logs]
+    simp only [List.singleton_append, nwtScan]
+    rw [nwtScan_logs]
+    simp [nwtScan, (nwt_end_test b.rows).1]
+  · intro h
+    simp only [nwtRead, turn, processStep, h]
+    rw [List.append_assoc, nwtScan_logs]
+    simp only [List.singleton_append, nwtScan]
+    rw [← List.append_nil (logItems s.post), nwtScan_logs]
+    simp [nwtScan, (nwt_end_test b.rows).1]
+
+/-- non-vacuity / the case the truthiness test got wrong: an empty page is a batch like any other -/
+example : nwtRead (turn none (fun _ => 1) 0 4 [⟨[], .emit ⟨0, 0, []⟩, []⟩, ⟨[], .finish, []⟩]) = some (⟨0, 0, []⟩, some 5) := by
+  decide
+
 /-! ### resume blob -/
 
 /-- **C11 resume token round trip**, for ALL byte strings whose length fits the prefix; a `None` call token and an empty
